@@ -108,6 +108,10 @@ func (fc *FnCtx) strLit(s string) string {
 	fc.strLits[key] = n
 	fc.addPre(fmt.Sprintf("(declare-fun %s () Str) ; %q", n, s))
 	fc.addPre(fmt.Sprintf("(assert (= (gs.len %s) %s))", n, fc.idxLit(int64(len(s)))))
+	if s == "" {
+		// the empty string is the only string of length 0
+		fc.addAxiom("gs.len", fmt.Sprintf("(assert (forall ((s Str)) (! (=> (= (gs.len s) %s) (= s %s)) :pattern ((gs.len s)))))", fc.idxLit(0), n))
+	}
 	if len(s) <= 64 {
 		for i := 0; i < len(s); i++ {
 			fc.addPre(fmt.Sprintf("(assert (= (gs.at %s %s) %s))", n, fc.idxLit(int64(i)), bvLit(big.NewInt(int64(s[i])), 8)))
@@ -513,7 +517,9 @@ func (fc *FnCtx) convert(v Val, to types.Type, pos token.Pos) Val {
 	}
 	from := v.Ty
 	if types.Identical(from.Underlying(), to.Underlying()) {
-		return Val{T: v.T, Ty: to, K: v.K}
+		if _, isStruct := from.Underlying().(*types.Struct); !isStruct || fc.sortOf(from) == fc.sortOf(to) {
+			return Val{T: v.T, Ty: to, K: v.K}
+		}
 	}
 	switch {
 	case isInteger(from) && isInteger(to):
@@ -574,6 +580,21 @@ func (fc *FnCtx) convert(v Val, to types.Type, pos token.Pos) Val {
 	// pointer / named conversions that keep representation
 	if fc.sortOf(from) == fc.sortOf(to) {
 		return Val{T: v.T, Ty: to}
+	}
+	if _, ok := from.Underlying().(*types.Struct); ok {
+		if _, ok2 := to.Underlying().(*types.Struct); ok2 && types.Identical(from.Underlying(), to.Underlying()) {
+			// T(x) between struct types with the same fields: a bijection between the two sorts
+			f := sym("conv$" + fc.typeName(from) + "$" + fc.typeName(to))
+			g := sym("conv$" + fc.typeName(to) + "$" + fc.typeName(from))
+			if !fc.declared[f] {
+				fc.declared[f], fc.declared[g] = true, true
+				fc.addPre(fmt.Sprintf("(declare-fun %s (%s) %s)", f, fc.sortOf(from), fc.sortOf(to)))
+				fc.addPre(fmt.Sprintf("(declare-fun %s (%s) %s)", g, fc.sortOf(to), fc.sortOf(from)))
+				fc.addAxiom(f, fmt.Sprintf("(assert (forall ((x %s)) (! (= (%s (%s x)) x) :pattern ((%s x)))))", fc.sortOf(from), g, f, f))
+				fc.addAxiom(g, fmt.Sprintf("(assert (forall ((x %s)) (! (= (%s (%s x)) x) :pattern ((%s x)))))", fc.sortOf(to), f, g, g))
+			}
+			return Val{T: app(f, v.T), Ty: to}
+		}
 	}
 	if isString(from) || isString(to) {
 		f := sym("conv$" + fc.typeName(from) + "$" + fc.typeName(to))
